@@ -1183,6 +1183,32 @@ example :
       ⟨i, i, 0, 1, []⟩) = [3, 6, 3] := by
   decide
 
+/-! FULL CLAIM ("every up host of a tier is the first one offered from it the same number of times ±1") — holds
+with d = 0 (third part of `C11_rotation_histogram`: weight 1 for every host). The unchanged code does NOT satisfy
+it while a host of the tier is down but still listed, or was offered by the replica phases: the scan starts at
+every LISTED position equally often and skips forward, so the host after such hosts takes their turns as well
+(weight 1 + the length of the run before it). Proposed finding KF-C11-6 (low severity). -/
+
+/-- COUNTEREXAMPLE to the ±1 form with d > 0 (kernel-checked). (1) round-robin over a, B, c, d with B down but
+listed: over 8 successive picks a, c, d are the first host offered 2, 4, 2 times. (2) token-aware over round-robin,
+hosts 1..6, replicas 1, 2 of the query's token both offered by the replica phases: after them, over 12 successive
+picks of the same query, hosts 3, 4, 5, 6 come first 6, 2, 2, 2 times — the host listed after the replicas gets
+three times the share of the others. Both verdicts are `balanced` in the sense of `tierBalanced` (bounds with d). -/
+theorem C11_cex_down_listed_double_share :
+    (let l : List Host := [⟨1, 1, 0, 0, []⟩, ⟨2, 2, 0, 0, []⟩, ⟨3, 3, 0, 0, []⟩, ⟨4, 4, 0, 0, []⟩]
+     let t := TA.new { Pol.new .rr 0 0 with l0 := l } false false false
+     [1, 3, 4].map (fun i => firstHits t.pol.tier 0
+        ((TA.rotateRun t (fun i => i != 2) (fun _ l => l) none 0 8).map (·.2.offered)) ⟨i, i, 0, 0, []⟩) = [2, 4, 2] ∧
+     t.rotateVerdict (fun i => i != 2) (fun _ l => l) none 8 = none) ∧
+    (let l : List Host := [⟨1, 1, 0, 0, []⟩, ⟨2, 2, 0, 0, []⟩, ⟨3, 3, 0, 0, []⟩, ⟨4, 4, 0, 0, []⟩, ⟨5, 5, 0, 0, []⟩, ⟨6, 6, 0, 0, []⟩]
+     let t : TA := { TA.new { Pol.new .rr 0 0 with l0 := l } false false true with
+       hosts := l, replicas := [(0, [(100, [⟨1, 1, 0, 0, []⟩, ⟨2, 2, 0, 0, []⟩])])] }
+     t.headOf (fun _ => true) id (some (0, 50)) = [⟨1, 1, 0, 0, []⟩, ⟨2, 2, 0, 0, []⟩] ∧
+     [3, 4, 5, 6].map (fun i => firstHits t.pol.tier 0
+        ((TA.rotateRun t (fun _ => true) (fun _ l => l) (some (0, 50)) 0 12).map (·.2.offered)) ⟨i, i, 0, 0, []⟩) = [6, 2, 2, 2] ∧
+     t.rotateVerdict (fun _ => true) (fun _ l => l) (some (0, 50)) 12 = none) := by
+  decide
+
 /-- REGRESSION for the seeded change C11-8 (kernel-checked): the variant that reduces the shift modulo the size of
 the local rack before using it for every tier (`rrSeqReduced`). On the shape 1/4/3 all 12 drained sequences are
 still complete and tier ordered, but the local-DC tier always starts at the same host — the verdict is `skewed:1`;
